@@ -59,7 +59,7 @@ func (s *sim) checkAll() {
 		msg := fmt.Sprintf("active chain contains block #%d (h=%d) which the ledger model labels %s", bad.idx, bad.height, bad.why)
 		sig := p + "/accepted-block/" + classOf(bad.why)
 		c.Violate(p, "active-chain-valid", sig, "%s", msg)
-		if p != "C12" {
+		if p != "C12" && !c.IsKnown(p, sig) {
 			c.Violate("C12", "active-chain-valid", "C12/active-chain-invalid/"+classOf(bad.why), "%s", msg)
 		}
 		if c.IsKnown(p, sig) && bad == tip {
